@@ -7,7 +7,7 @@ vs what the import produced."""
 import json, math, os, random, tempfile
 from harness.common import fhex
 PID = "C13"; COQ_TARGET = "C13"
-RULE = ("libsbml-built Level-3 documents: 2-4 species with amount and/or concentration set (zero, non-zero, unset), 1-3 global parameters, 1-3 reactions with stoichiometries 1-3, "
+RULE = ("libsbml-built Level-3 documents: 2-4 species with amount and/or concentration set (zero, non-zero, tiny, unset, both attributes present), 1-3 global parameters, 1-3 reactions with stoichiometries 1-3, "
         "modifiers, local parameters whose names collide with globals and with each other, kinetic laws over + - * / ^ and names, 0-4 assignment / rate rules in every order; "
         "non-trivial = a colliding local parameter or >= 2 rules of different kinds")
 TRUSTED = ["libsbml (document construction, XML, L3 formulas, renameSIdRefs) is outside the model", "hand model coq/Model/SbmlImport.v tied by correspondence on the rule loop and initial values"]
@@ -20,11 +20,17 @@ def gen_case(rng):
     sp = {}
     for s in species:
         # SBML (and libsbml's setters) make initialAmount and initialConcentration mutually exclusive
-        mode = rng.choice(["amount", "conc", "amount_zero", "neither"])
+        mode = rng.choice(["amount", "conc", "amount_zero", "neither", "both", "both"])
         sp[s] = {"amount": None, "conc": None}
-        if mode == "amount": sp[s]["amount"] = float(rng.randint(1, 9))
+        if mode == "amount": sp[s]["amount"] = rng.choice([float(rng.randint(1, 9)), float(rng.randint(1, 9)), 2.5e-9, 1e-12])
         if mode == "amount_zero": sp[s]["amount"] = 0.0
         if mode == "conc": sp[s]["conc"] = float(rng.randint(1, 9)) + 0.5
+        if mode == "both":
+            # hand-written / other tools' documents carry both attributes (the second one is added to the serialised XML below): a
+            # non-zero amount -- however small -- wins, a zero amount yields to the concentration (seeded change S4_C13: "amount == 0"
+            # became a test with an absolute tolerance)
+            sp[s]["amount"] = rng.choice([float(rng.randint(1, 9)), 0.0, 2.5e-9, 1e-12, 0.5, 3e-7])
+            sp[s]["conc"] = float(rng.randint(1, 9)) + 0.5
     globs = {"k": round(rng.uniform(0.2, 2), 3), "K": float(rng.randint(1, 5))}
     if rng.random() < 0.5: globs["g2"] = 0.7
     # a VARIABLE global parameter driven by an assignment rule; reactions may declare a local parameter of the same id,
@@ -83,7 +89,7 @@ def _write_doc(case, path):
     for s, v in case["species"].items():
         x = m.createSpecies(); x.setId(s); x.setCompartment("cell"); x.setConstant(False); x.setBoundaryCondition(False); x.setHasOnlySubstanceUnits(False)
         if v["amount"] is not None: x.setInitialAmount(v["amount"])
-        if v["conc"] is not None: x.setInitialConcentration(v["conc"])
+        elif v["conc"] is not None: x.setInitialConcentration(v["conc"])
     for p, v in case["globals"].items():
         x = m.createParameter(); x.setId(p); x.setValue(v); x.setConstant(not any(ru["var"] == p for ru in case["rules"]))
     for rx in case["reactions"]:
@@ -102,6 +108,15 @@ def _write_doc(case, path):
         x = m.createAssignmentRule() if ru["kind"] == "assignment" else m.createRateRule()
         x.setVariable(ru["var"]); x.setMath(libsbml.parseL3Formula(ru["formula"]))
     libsbml.writeSBMLToFile(doc, path)
+    both = {s: v for s, v in case["species"].items() if v["amount"] is not None and v["conc"] is not None}
+    if both:
+        # libsbml's setters keep only one of the two attributes: the concentration is added to the serialised document
+        import re
+        txt = open(path).read()
+        for s, v in both.items():
+            txt, n_ = re.subn(r'(<species\b[^>]*\bid="%s"[^>]*?)(\s*/?>)' % re.escape(s), lambda m_: m_.group(1) + ' initialConcentration="%r"' % v["conc"] + m_.group(2), txt, count=1)
+            if n_ != 1: raise RuntimeError("harness: could not add initialConcentration to species " + s)
+        open(path, "w").write(txt)
 
 def impl_case(case):
     import numpy as np, warnings
@@ -203,7 +218,9 @@ def stats(cases):
     from collections import Counter
     return {"rule_sequences": dict(Counter("".join(ru["kind"][0] for ru in c["rules"]) for c in cases)), "colliding_locals": sum(1 for c in cases for rx in c["reactions"] if "k" in rx["locals"]),
             "locals_shadowing_a_rule_driven_global": sum(1 for c in cases for rx in c["reactions"] if "gv" in rx["locals"]),
-            "of_which_with_the_globals_declared_value": sum(1 for c in cases for rx in c["reactions"] if "gv" in rx["locals"] and rx["locals"]["gv"] == c["globals"].get("gv"))}
+            "of_which_with_the_globals_declared_value": sum(1 for c in cases for rx in c["reactions"] if "gv" in rx["locals"] and rx["locals"]["gv"] == c["globals"].get("gv")),
+            "species_with_both_amount_and_concentration": sum(1 for c in cases for v in c["species"].values() if v["amount"] is not None and v["conc"] is not None),
+            "of_which_amount_below_1e-6": sum(1 for c in cases for v in c["species"].values() if v["amount"] is not None and v["conc"] is not None and 0 < v["amount"] < 1e-6)}
 def shrink(case, fails):
     from harness.shrink import shrink_list
     rules = shrink_list(case["rules"], lambda cands: fails([dict(case, rules=c) for c in cands]), min_len=0)
